@@ -39,6 +39,62 @@ Ltac odd_cases i :=
   let H := fresh "Hodd" in
   destruct (Nat.odd i) eqn:H; [apply odd_mod in H | apply even_mod in H].
 
+(** number of trailing one bits of i *)
+Fixpoint tones (f i : nat) : nat :=
+  match f with
+  | O => 0
+  | S f' => if Nat.odd i then S (tones f' (i / 2)) else 0
+  end.
+
+Lemma tones_decomp : forall f i, i = (i / 2 ^ tones f i) * 2 ^ tones f i + (2 ^ tones f i - 1).
+Proof.
+  induction f as [|f IH]; intro i; cbn [tones].
+  - change (2 ^ 0) with 1. rewrite Nat.div_1_r. lia.
+  - odd_cases i.
+    + rewrite Nat.pow_succ_r'. pose proof (IH (i / 2)) as E.
+      pose proof (pow2_pos (tones f (i / 2))) as Hp.
+      rewrite <- Nat.div_div by lia.
+      set (q := i / 2 / 2 ^ tones f (i / 2)) in *. nia.
+    + change (2 ^ 0) with 1. rewrite Nat.div_1_r. lia.
+Qed.
+
+Lemma tones_even : forall f i, i < 2 ^ f -> Nat.odd (i / 2 ^ tones f i) = false.
+Proof.
+  induction f as [|f IH]; intros i H; cbn [tones].
+  - simpl in H. assert (i = 0) by lia. subst. reflexivity.
+  - destruct (Nat.odd i) eqn:Ho.
+    + rewrite Nat.pow_succ_r'. rewrite <- Nat.div_div by (try pose proof (pow2_pos (tones f (i / 2))); lia).
+      apply IH. rewrite Nat.pow_succ_r' in H. lia.
+    + change (2 ^ 0) with 1. rewrite Nat.div_1_r. exact Ho.
+Qed.
+
+
+Lemma tones_unique : forall t f i q, i = q * 2 ^ t + (2 ^ t - 1) -> q mod 2 = 0 -> i < 2 ^ f ->
+  tones f i = t.
+Proof.
+  induction t as [|t IH]; intros f i q Hi Hq Hf.
+  - change (2 ^ 0) with 1 in Hi. destruct f as [|f]; [reflexivity|]. cbn [tones].
+    odd_cases i; [lia|reflexivity].
+  - rewrite Nat.pow_succ_r' in Hi. pose proof (pow2_pos t) as Hp.
+    destruct f as [|f]; [simpl in Hf; lia|]. cbn [tones].
+    odd_cases i; [|lia]. f_equal. apply (IH f (i / 2) q); try assumption.
+    + nia.
+    + rewrite Nat.pow_succ_r' in Hf. lia.
+Qed.
+
+Lemma tones_spec i : let t := tones i i in
+  i = (i / 2 ^ t) * 2 ^ t + (2 ^ t - 1) /\ (i / 2 ^ t) mod 2 = 0.
+Proof.
+  cbv zeta. split; [apply tones_decomp|].
+  apply even_mod. apply tones_even. apply Nat.pow_gt_lin_r. lia.
+Qed.
+
+Lemma tones_fuel f i : i < 2 ^ f -> tones f i = tones i i.
+Proof.
+  intro H. destruct (tones_spec i) as [H1 H2].
+  apply (tones_unique _ f i (i / 2 ^ tones i i)); assumption.
+Qed.
+
 Section Spec.
   Variable T : Type.
   Variable hc : T -> T -> T.
@@ -367,35 +423,6 @@ Section Spec.
 
   (** * The old tree inside the levels of the new one (consistency) *)
 
-  (** number of trailing one bits of i *)
-  Fixpoint tones (f i : nat) : nat :=
-    match f with
-    | O => 0
-    | S f' => if Nat.odd i then S (tones f' (i / 2)) else 0
-    end.
-
-  Lemma tones_decomp : forall f i, i = (i / 2 ^ tones f i) * 2 ^ tones f i + (2 ^ tones f i - 1).
-  Proof.
-    induction f as [|f IH]; intro i; cbn [tones].
-    - change (2 ^ 0) with 1. rewrite Nat.div_1_r. lia.
-    - odd_cases i.
-      + rewrite Nat.pow_succ_r'. pose proof (IH (i / 2)) as E.
-        pose proof (pow2_pos (tones f (i / 2))) as Hp.
-        rewrite <- Nat.div_div by lia.
-        set (q := i / 2 / 2 ^ tones f (i / 2)) in *. nia.
-      + change (2 ^ 0) with 1. rewrite Nat.div_1_r. lia.
-  Qed.
-
-  Lemma tones_even : forall f i, i < 2 ^ f -> Nat.odd (i / 2 ^ tones f i) = false.
-  Proof.
-    induction f as [|f IH]; intros i H; cbn [tones].
-    - simpl in H. assert (i = 0) by lia. subst. reflexivity.
-    - destruct (Nat.odd i) eqn:Ho.
-      + rewrite Nat.pow_succ_r'. rewrite <- Nat.div_div by (try pose proof (pow2_pos (tones f (i / 2))); lia).
-        apply IH. rewrite Nat.pow_succ_r' in H. lia.
-      + change (2 ^ 0) with 1. rewrite Nat.div_1_r. exact Ho.
-  Qed.
-
   Lemma up_firstn_even : forall L k, k mod 2 = 0 -> up (firstn k L) = firstn (k / 2) (up L).
   Proof.
     induction L as [| a | a b r IH] using list_pair_ind; intros k Hk.
@@ -452,5 +479,178 @@ Section Spec.
     - rewrite (Nat.div_small i (2 ^ f)) in E by exact Hf. simpl in E. inversion E. reflexivity.
     - destruct L; simpl in *; [lia|congruence].
     - rewrite firstn_length. lia.
+  Qed.
+
+  (** * Unfolding [rfc_proof] / SUBPROOF *)
+  Definition sub (m : nat) (D : list T) (b : bool) : list T := subproof_f (S (length D)) m D b.
+
+  Lemma subproof_f_indep : forall f1 f2 m D b, length D < f1 -> length D < f2 -> 1 <= m -> m <= length D ->
+    subproof_f f1 m D b = subproof_f f2 m D b.
+  Proof.
+    induction f1 as [|f1 IH]; intros f2 m D b H1 H2 Hm1 Hm2; [lia|].
+    destruct f2 as [|f2]; [lia|].
+    cbn [Merkle.subproof_f]. destruct (Nat.eqb_spec m (length D)); [reflexivity|].
+    destruct (split_spec (length D)) as (Ha & Hb & Hc); [lia|].
+    destruct (Nat.leb_spec m (split (length D))); f_equal; apply IH; rewrite ?firstn_length, ?skipn_length; lia.
+  Qed.
+
+  Lemma sub_full D b : sub (length D) D b = if b then [] else [mth D].
+  Proof. unfold sub. cbn [Merkle.subproof_f]. rewrite Nat.eqb_refl. reflexivity. Qed.
+
+  Lemma sub_app j A B m b : length A = 2 ^ j -> B <> [] -> length B <= 2 ^ j ->
+    1 <= m -> m < length A + length B ->
+    sub m (A ++ B) b =
+      if m <=? 2 ^ j then sub m A b ++ [mth B] else sub (m - 2 ^ j) B false ++ [mth A].
+  Proof.
+    intros HA HB HB2 Hm1 Hm2.
+    assert (0 < length B) by (destruct B; simpl; [congruence|lia]).
+    pose proof (pow2_pos j).
+    unfold sub at 1. cbn [Merkle.subproof_f]. rewrite app_length.
+    destruct (Nat.eqb_spec m (length A + length B)); [lia|].
+    rewrite (split_pow j) by (rewrite ?Nat.pow_succ_r'; lia).
+    rewrite <- HA, firstn_app, skipn_app, Nat.sub_diag, firstn_all, skipn_all.
+    cbn [firstn skipn app]. rewrite app_nil_r.
+    destruct (Nat.leb_spec m (length A)); f_equal; apply subproof_f_indep; lia.
+  Qed.
+
+  Lemma mth_ups t L : L <> [] -> mth (ups t L) = mth L.
+  Proof.
+    intro H.
+    assert (Hb : forall X : list T, length X <= 2 ^ length X) by (intro X; induction (length X); simpl; lia).
+    assert (E1 : ups (t + length L) L = [mth L]).
+    { apply ups_mth; [exact H|]. pose proof (Hb L).
+      pose proof (Nat.pow_le_mono_r 2 (length L) (t + length L) ltac:(lia) ltac:(lia)). lia. }
+    assert (Hlen : length (ups t L) <= length L).
+    { clear. revert L. induction t as [|t IH]; intro L; [simpl; lia|].
+      cbn [ups]. pose proof (IH (up L)). rewrite up_length in H. lia. }
+    assert (E2 : ups (length L) (ups t L) = [mth (ups t L)]).
+    { apply ups_mth; [apply ups_length_pos; exact H|]. pose proof (Hb L). lia. }
+    rewrite ups_add, E2 in E1. inversion E1. reflexivity.
+  Qed.
+
+  (** the consistency proof bottom-up: strip the trailing ones of i = m-1, start from that node
+      (unless it is the root of the old tree and b holds), then its audit path *)
+  Definition cons_bu (d : T) (i : nat) (L : list T) (b : bool) : list T :=
+    let t := tones i i in
+    let it := i / 2 ^ t in
+    let Lt := ups t L in
+    (if (it =? 0) && b then [] else [nth it Lt d]) ++ path_bu d (length L) it Lt.
+
+  Lemma len_le_pow (X : list T) : length X <= 2 ^ length X.
+  Proof. induction (length X); simpl; lia. Qed.
+
+  Lemma ups_length_le t : forall L, length (ups t L) <= length L.
+  Proof.
+    induction t as [|t IH]; intro L; [simpl; lia|].
+    cbn [ups]. pose proof (IH (up L)) as H. rewrite up_length in H. lia.
+  Qed.
+
+  (** the audit path of a node inside [ups t X], with any sufficient fuel, is the RFC path *)
+  Lemma path_bu_rfc d F X i : i < length X -> length X <= 2 ^ F -> path_bu d F i X = rfc_path i X.
+  Proof. intros. symmetry. apply (rfc_path_bu d (length X)); auto. Qed.
+
+  Lemma ups_fuel_ok t X : length (ups t X) <= 2 ^ length X.
+  Proof. pose proof (ups_length_le t X). pose proof (len_le_pow X). lia. Qed.
+
+  Lemma ups_length_bounds : forall t B,
+    length B <= length (ups t B) * 2 ^ t /\ length (ups t B) * 2 ^ t <= length B + 2 ^ t - 1.
+  Proof.
+    induction t as [|t IHt]; intro B; [simpl; lia|].
+    cbn [ups]. rewrite Nat.pow_succ_r'. pose proof (IHt (up B)) as H. rewrite up_length in H.
+    pose proof (pow2_pos t). nia.
+  Qed.
+
+  Theorem rfc_proof_bu d : forall n D m b, length D = n -> 1 <= m -> m <= n ->
+    (m < n \/ exists h, n = 2 ^ h) ->
+    sub m D b = cons_bu d (m - 1) D b.
+  Proof.
+    induction n as [n IH] using lt_wf_ind. intros D m b Hn Hm1 Hmn Hinv.
+    destruct (Nat.eq_dec m n) as [Emn|Hne].
+    - (* m = n = 2^h *)
+      destruct Hinv as [|[h Hh]]; [lia|].
+      subst m. rewrite <- Hn, sub_full. unfold cons_bu.
+      assert (Ht : tones (n - 1) (n - 1) = h).
+      { apply (tones_unique h _ _ 0); [lia | reflexivity | apply Nat.pow_gt_lin_r; lia]. }
+      rewrite Hn, Ht.
+      assert (Ei : (n - 1) / 2 ^ h = 0) by (apply Nat.div_small; pose proof (pow2_pos h); lia).
+      rewrite Ei.
+      assert (HD : D <> []) by (destruct D; simpl in *; [pose proof (pow2_pos h); lia|congruence]).
+      rewrite ups_mth by (assumption || lia).
+      rewrite path_bu_single, app_nil_r. destruct b; reflexivity.
+    - assert (Hlt : m < n) by lia.
+      assert (H2 : 2 <= n) by lia.
+      set (e := Nat.log2 (n - 1)).
+      destruct (Nat.log2_spec (n - 1)) as [He1 He2]; [lia|]. fold e in He1, He2.
+      rewrite Nat.pow_succ_r' in He2.
+      rewrite <- (firstn_skipn (2 ^ e) D).
+      set (A := firstn (2 ^ e) D). set (B := skipn (2 ^ e) D).
+      assert (HA : length A = 2 ^ e) by (subst A; rewrite firstn_length; lia).
+      assert (HB : length B = n - 2 ^ e) by (subst B; rewrite skipn_length; lia).
+      assert (HBne : B <> []) by (intro E; rewrite E in HB; simpl in HB; lia).
+      assert (HAne : A <> []) by (intro E; rewrite E in HA; simpl in HA; pose proof (pow2_pos e); lia).
+      rewrite (sub_app e) by (assumption || lia).
+      destruct (tones_spec (m - 1)) as [Hd1 Hd2].
+      unfold cons_bu at 1. set (t := tones (m - 1) (m - 1)) in *. set (it := (m - 1) / 2 ^ t) in *.
+      pose proof (pow2_pos t) as Hpt. pose proof (pow2_pos e) as Hpe.
+      pose proof (ups_fuel_ok t (A ++ B)) as HF2.
+      destruct (ups_length_bounds t B) as [HbB1 HbB2].
+      destruct (Nat.leb_spec m (2 ^ e)) as [Hl|Hr].
+      + (* the old tree lies in the left half *)
+        assert (Hte : t <= e).
+        { destruct (le_lt_dec t e); [assumption|].
+          pose proof (Nat.pow_le_mono_r 2 (S e) t ltac:(lia) ltac:(lia)) as Hm. rewrite Nat.pow_succ_r' in Hm. nia. }
+        assert (Epow : 2 ^ e = 2 ^ (e - t) * 2 ^ t) by (rewrite <- Nat.pow_add_r; f_equal; lia).
+        assert (Hit : it < 2 ^ (e - t)) by nia.
+        assert (IHA : sub m A b = cons_bu d (m - 1) A b).
+        { apply (IH (2 ^ e)); try lia. destruct (Nat.eq_dec m (2 ^ e)); [right; exists e; reflexivity | left; lia]. }
+        rewrite IHA. unfold cons_bu. fold t. fold it.
+        pose proof (ups_fuel_ok t A) as HF1.
+        rewrite (ups_app t A B (2 ^ (e - t))) in * by lia.
+        assert (HlA : length (ups t A) = 2 ^ (e - t)) by (apply ups_length_mult; lia).
+        rewrite app_nth1 by lia.
+        rewrite <- app_assoc. f_equal.
+        rewrite (path_bu_rfc d _ (ups t A)) by (lia || exact HF1).
+        rewrite (path_bu_rfc d _ (ups t A ++ ups t B)) by (try exact HF2; rewrite app_length; lia).
+        rewrite (rfc_path_app (e - t)) by (try assumption; try (apply ups_length_pos; assumption); nia).
+        destruct (Nat.ltb_spec it (2 ^ (e - t))); [|lia].
+        rewrite (mth_ups t B HBne). reflexivity.
+      + (* the old tree reaches into the right half *)
+        destruct (tones_spec (m - 2 ^ e - 1)) as [Hd1' Hd2'].
+        set (t' := tones (m - 2 ^ e - 1) (m - 2 ^ e - 1)) in *.
+        set (it' := (m - 2 ^ e - 1) / 2 ^ t') in *.
+        pose proof (pow2_pos t') as Hpt'.
+        assert (Hte' : t' < e).
+        { destruct (le_lt_dec e t') as [Hle|]; [|assumption].
+          pose proof (Nat.pow_le_mono_r 2 e t' ltac:(lia) Hle). nia. }
+        assert (Epow : 2 ^ e = 2 ^ (e - t') * 2 ^ t') by (rewrite <- Nat.pow_add_r; f_equal; lia).
+        assert (Hev : (2 ^ (e - t')) mod 2 = 0).
+        { replace (e - t') with (S (e - t' - 1)) by lia. rewrite Nat.pow_succ_r'. lia. }
+        assert (Et : t = t').
+        { unfold t. apply (tones_unique t' _ _ (it' + 2 ^ (e - t'))).
+          - nia.
+          - lia.
+          - apply Nat.pow_gt_lin_r. lia. }
+        assert (Eit : it = 2 ^ (e - t') + it').
+        { unfold it. rewrite Et. symmetry. apply Nat.div_unique with (r := 2 ^ t' - 1); [lia|]. nia. }
+        assert (IHB : sub (m - 2 ^ e) B false = cons_bu d (m - 2 ^ e - 1) B false).
+        { apply (IH (n - 2 ^ e)); try lia. }
+        rewrite IHB. unfold cons_bu. fold t'. fold it'.
+        pose proof (ups_fuel_ok t' B) as HF1.
+        rewrite Et in *. clear Et.
+        destruct (ups_length_bounds t' B) as [HbB1' HbB2'].
+        rewrite (ups_app t' A B (2 ^ (e - t'))) in * by lia.
+        assert (HlA : length (ups t' A) = 2 ^ (e - t')) by (apply ups_length_mult; lia).
+        assert (Hit' : it' < length (ups t' B)) by nia.
+        rewrite Eit, <- HlA. rewrite app_nth2 by lia.
+        replace (length (ups t' A) + it' - length (ups t' A)) with it' by lia.
+        assert (E0 : (length (ups t' A) + it' =? 0) = false) by (apply Nat.eqb_neq; rewrite HlA; pose proof (pow2_pos (e - t')); lia).
+        rewrite E0. cbn [andb]. rewrite andb_false_r.
+        rewrite <- app_assoc. cbn [app]. f_equal.
+        rewrite (path_bu_rfc d _ (ups t' B)) by (lia || exact HF1).
+        rewrite (path_bu_rfc d _ (ups t' A ++ ups t' B)) by (try exact HF2; rewrite app_length; lia).
+        rewrite (rfc_path_app (e - t')) by (try assumption; try (apply ups_length_pos; assumption); nia).
+        destruct (Nat.ltb_spec (length (ups t' A) + it') (2 ^ (e - t'))); [lia|].
+        replace (length (ups t' A) + it' - 2 ^ (e - t')) with it' by lia.
+        rewrite (mth_ups t' A HAne). reflexivity.
   Qed.
 End Spec.
